@@ -29,12 +29,31 @@ package httpserver
 //	                                            as in mode mux: the answer must be the quiescent-twin answer of ONE generation g,
 //	                                            (updates applied when the request dialled) <= g <= (updates started when its handler was entered);
 //	                                            "applied" = the runtime has stored the new mux instance (polled by the updater)
+//
+// LISTEN-FAILURE HISTORIES (c11RTDown, 40% of the rt scenarios): the bind of
+// the server's port fails for a while ("address already in use", injected in
+// the gracenet.ListenHook the harness installs) - either the very first bind
+// (From=0) or the bind of a restart-requiring update (keepAliveTimeout changes,
+// From=f) - so the runtime is in state failed; hot updates From+1..Until arrive
+// while it is failed ("applied" then = the runtime's fsm has processed the
+// reload event: runtime.spec is the new spec); the fault ends; the runtime's
+// 10 s checkFailed ticker (virtual clock) or a further restart-requiring update
+// brings the server back. From then on the unchanged oracle applies: a request
+// must be answered by a generation >= the newest one applied when it dialled
+// (C11.rt.stale-generation otherwise). While the server is (possibly) down -
+// from the start of a restart-requiring update / the failing Init until the
+// harness has seen the final server accept a probe connection - a refused dial
+// or a connection reset in the accept queue is not judged; the client waits
+// 1.3 s and tries the same request again (at most 40 times).
+//
+//	C11.rt.failed-server-never-recovered        the port is free again, but neither ~80 s of ticker time nor a restart-requiring update brought the server back
 
 import (
 	"bufio"
 	stdcontext "context"
 	"fmt"
 	"io"
+	"net"
 	"net/http"
 	"strconv"
 	"strings"
@@ -48,8 +67,23 @@ import (
 	"verif/simkit/simnet"
 )
 
+// c11RTDown is the listen-failure history of an rt scenario.
+type c11RTDown struct {
+	From    int    `json:"from"`    // binds fail from here on: 0 = the first bind (Init); f >= 1 = from update f on, which needs a restart (keepAliveTimeout changes)
+	Until   int    `json:"until"`   // the fault ends after update Until has been processed (updates From+1..Until are hot and arrive while the server is failed)
+	Recover string `json:"recover"` // "ticker": the runtime's checkFailed ticker restarts the server; "restart": update Until+1 needs a restart
+}
+
 func c11GenRT(rng *sim.Rand) *c11MuxSc {
 	sc := c11GenMux(rng)
+	withDown := rng.Bool(0.4)
+	if withDown {
+		for nb := 100; len(sc.Gens) < 3; {
+			s := c11EditSrv(rng, &sc.Gens[len(sc.Gens)-1], &nb)
+			s.GapUs = int64(rng.Pick(0, 1, 100, 1000, 3000))
+			sc.Gens = append(sc.Gens, s)
+		}
+	}
 	for i := range sc.Gens {
 		// the server-level body limit is not a hot field
 		sc.Gens[i].MaxBody = sc.Gens[0].MaxBody
@@ -70,6 +104,28 @@ func c11GenRT(rng *sim.Rand) *c11MuxSc {
 				q.Hold = rng.Range(2, 8)
 			}
 		}
+	}
+	if withDown {
+		ng := len(sc.Gens) - 1 // >= 2
+		d := &c11RTDown{Recover: "ticker"}
+		if rng.Bool(0.5) {
+			d.Until = rng.Range(1, ng)
+		} else {
+			d.From = rng.Range(1, ng-1)
+			d.Until = rng.Range(d.From+1, ng)
+		}
+		if d.Until < ng && rng.Bool(0.5) {
+			d.Recover = "restart"
+		}
+		ka := 0
+		for i := 1; i <= ng; i++ {
+			if (d.From >= 1 && i == d.From) || (d.Recover == "restart" && i == d.Until+1) {
+				ka = 20 + 7*i
+				sc.Gens[i].Edits = append(sc.Gens[i].Edits, "keepAliveTimeout(restart)")
+			}
+			sc.Gens[i].KA = ka
+		}
+		sc.Down = d
 	}
 	return sc
 }
@@ -155,12 +211,67 @@ func c11ExecRT(r *sim.Run, sc *c11MuxSc) {
 
 	// system under test: a listening HTTPServer
 	n := simnet.New()
-	gracenet.ListenHook = n.Listen
+	down := sc.Down
+	if down != nil && (down.From < 0 || down.Until < down.From || down.Until >= len(specs)) {
+		down = nil
+	}
+	for g := range sc.Gens {
+		if sc.Gens[g].KA < 0 || sc.Gens[g].KA > 3600 {
+			return
+		}
+	}
+	failing := false // binds of the server's port fail
+	gracenet.ListenHook = func(network, addr string) (net.Listener, error) {
+		if failing {
+			r.Fault("c11.listen_address_in_use")
+			return nil, fmt.Errorf("listen %s %s: bind: address already in use", network, addr)
+		}
+		return n.Listen(network, addr)
+	}
 	defer func() { gracenet.ListenHook = nil }()
 	mapper := &c11Mapper{missing: missing, handlers: map[string]*c11Backend{}}
 	hs := &HTTPServer{}
+	if down != nil && down.From == 0 {
+		failing = true
+	}
 	hs.Init(specs[0], mapper)
 	rt := hs.runtime
+	// maybeDown: the listener may be closed for a reason the scenario contains (failed
+	// bind, restart-requiring update in progress); downEpoch counts its changes
+	maybeDown, downEpoch := false, 0
+	setDown := func(v bool) {
+		if maybeDown != v {
+			maybeDown = v
+			downEpoch++
+		}
+	}
+	kaOf := func(g int) time.Duration {
+		if sc.Gens[g].KA > 0 {
+			return time.Duration(sc.Gens[g].KA) * time.Second
+		}
+		return defaultKeepAliveTimeout
+	}
+	waitFor := func(cond func() bool, steps int, step time.Duration) bool {
+		for i := 0; i < steps && !r.Aborted(); i++ {
+			if cond() {
+				return true
+			}
+			r.Sleep(step)
+		}
+		return r.Aborted() || cond()
+	}
+	// isUp: the net/http server built for generation g's restart-relevant options accepts connections
+	isUp := func(g int) bool {
+		if rt.spec != specs[g].ObjectSpec().(*Spec) || rt.server == nil || rt.server.IdleTimeout != kaOf(g) || rt.getState() != stateRunning {
+			return false
+		}
+		c, err := n.DialFrom(stdcontext.Background(), "10.9.9.9", "front.test:10080")
+		if err != nil {
+			return false
+		}
+		c.Close()
+		return true
+	}
 	applied := func(sp *supervisor.Spec) bool {
 		for i := 0; i < 5000 && !r.Aborted(); i++ {
 			if inst := rt.mux.inst.Load().(*muxInstance); inst.superSpec == sp && rt.limitListener != nil {
@@ -183,7 +294,16 @@ func c11ExecRT(r *sim.Run, sc *c11MuxSc) {
 		time.Sleep(checkFailedTimeout + time.Second)
 		n.Shutdown()
 	}
-	if !applied(specs[0]) {
+	if failing {
+		setDown(true)
+		if !waitFor(func() bool { return rt.getState() == stateFailed }, 5000, time.Microsecond) {
+			r.Probe("c11.rt.initial_bind_failure_not_observed")
+			cleanup()
+			return
+		}
+		r.Probe("c11.rt.server_failed_at_first_bind")
+		r.Eventf("the first bind failed: runtime state %s", rt.getState())
+	} else if !applied(specs[0]) {
 		r.Violate("C11.rt.update-never-applied", "the HTTPServer never started listening with its initial spec")
 		cleanup()
 		return
@@ -214,7 +334,30 @@ func c11ExecRT(r *sim.Run, sc *c11MuxSc) {
 	interesting := 0
 	updating := false
 
+	recovered := false
+	// endFault: after update g has been processed the port becomes free, if the scenario says so
+	endFault := func(g int) bool {
+		if down == nil || g != down.Until || !failing {
+			return true
+		}
+		failing = false
+		r.Eventf("the port is free again")
+		if down.Recover != "restart" || g+1 >= len(specs) || sc.Gens[g+1].KA == sc.Gens[g].KA {
+			if !waitFor(func() bool { return isUp(g) }, 120, 700*time.Millisecond) {
+				r.Violate("C11.rt.failed-server-never-recovered", "the port has been free for 84 s (checkFailed period 10 s), the server still accepts no connection (runtime state %s)", rt.getState())
+				return false
+			}
+			r.Probe("c11.rt.failed_server_recovered_by_ticker")
+			r.Eventf("the server listens again (runtime state %s)", rt.getState())
+			recovered = true
+			setDown(false)
+		}
+		return true
+	}
 	r.Go("updater", func() {
+		if !endFault(0) {
+			return
+		}
 		for g := 1; g < len(specs); g++ {
 			if r.Aborted() || r.Violated() {
 				return
@@ -236,6 +379,16 @@ func c11ExecRT(r *sim.Run, sc *c11MuxSc) {
 					r.Probe("c11.rt.update_changes_server_ipfilter_while_handlers_in_flight")
 				}
 			}
+			if down != nil && g == down.From {
+				failing = true
+				r.Eventf("binds of the port fail from now on")
+			}
+			restartType := sc.Gens[g].KA != sc.Gens[g-1].KA
+			wasFailed := rt.getState() == stateFailed
+			if restartType {
+				setDown(true)
+				r.Probe("c11.rt.update_needs_restart")
+			}
 			nh := &HTTPServer{}
 			var pv interface{}
 			func() {
@@ -247,13 +400,46 @@ func c11ExecRT(r *sim.Run, sc *c11MuxSc) {
 				return
 			}
 			hs = nh
-			if !applied(specs[g]) {
-				r.Violate("C11.rt.update-never-applied", "HTTPServer.Inherit(generation %d) returned, but the runtime never loaded the spec", g)
-				return
+			switch {
+			case restartType && failing:
+				if !waitFor(func() bool {
+					return rt.spec == specs[g].ObjectSpec().(*Spec) && rt.server != nil && rt.server.IdleTimeout == kaOf(g) && rt.getState() == stateFailed
+				}, 200, 500*time.Millisecond) {
+					r.Probe("c11.rt.bind_failure_of_restart_not_observed")
+					return
+				}
+				r.Probe("c11.rt.server_failed_by_restart_update")
+				r.Eventf("update g%d processed, the restarted server could not bind: runtime state %s", g, rt.getState())
+			case restartType:
+				if !waitFor(func() bool { return isUp(g) }, 200, 500*time.Millisecond) {
+					r.Violate("C11.rt.failed-server-never-recovered", "update to generation %d needs a restart (keepAliveTimeout %v -> %v) and the port is free, but 100 s later the server still accepts no connection (runtime state %s, failed before the update: %v)",
+						g, kaOf(g-1), kaOf(g), rt.getState(), wasFailed)
+					return
+				}
+				if wasFailed {
+					r.Probe("c11.rt.failed_server_recovered_by_restart_update")
+					recovered = true
+				}
+				setDown(false)
+			case wasFailed || maybeDown:
+				// hot update while the server is failed: applied = the fsm has processed the event
+				if !waitFor(func() bool { return rt.spec == specs[g].ObjectSpec().(*Spec) }, 5000, time.Microsecond) {
+					r.Violate("C11.rt.update-never-applied", "HTTPServer.Inherit(generation %d) returned while the server was failed, but the runtime never processed the update", g)
+					return
+				}
+				r.Probe("c11.rt.hot_update_while_server_failed")
+			default:
+				if !applied(specs[g]) {
+					r.Violate("C11.rt.update-never-applied", "HTTPServer.Inherit(generation %d) returned, but the runtime never loaded the spec", g)
+					return
+				}
 			}
 			done = g
 			updating = false
 			r.Eventf("update g%d applied", g)
+			if !endFault(g) {
+				return
+			}
 		}
 	})
 	for ci := range sc.Clients {
@@ -278,11 +464,27 @@ func c11ExecRT(r *sim.Run, sc *c11MuxSc) {
 				if hold < 0 || hold > 8 {
 					hold = 0
 				}
+				tries := 0
+			again:
+				if r.Aborted() || r.Violated() {
+					return
+				}
+				tries++
 				f := &flight{hold: hold}
 				flights[id] = f
 				lo := done
 				startedAtDial, updatingAtDial := started, updating
+				downAtDial, epochAtDial := maybeDown, downEpoch
 				conn, err := n.DialFrom(stdcontext.Background(), q.IP, "front.test:10080")
+				if err != nil && (downAtDial || maybeDown || downEpoch != epochAtDial) {
+					// the server is down for a reason the scenario contains: not judged
+					r.Probe("c11.rt.dial_refused_while_server_down")
+					if tries < 40 {
+						r.Sleep(1300 * time.Millisecond)
+						goto again
+					}
+					continue
+				}
 				if err != nil {
 					r.Eventf("%s dial: %v", id, err)
 					class := "C11.rt.dial-refused"
@@ -311,6 +513,15 @@ func c11ExecRT(r *sim.Run, sc *c11MuxSc) {
 				if f.entered {
 					hi = f.hiAtHnd
 				}
+				if err != nil && (downAtDial || maybeDown || downEpoch != epochAtDial) {
+					// e.g. reset in the accept queue of a listener that a restart closed: not judged
+					r.Probe("c11.rt.connection_lost_while_server_restarts")
+					if tries < 40 {
+						r.Sleep(1300 * time.Millisecond)
+						goto again
+					}
+					continue
+				}
 				if err != nil {
 					r.Eventf("%s aborted: %v", id, err)
 					r.Violate("C11.rt.inflight-request-aborted-by-update", "request {%v}: the connection was established but ended without a complete response: %v (generations %d..%d possible, handler entered: %v)", q, err, lo, hi, f.entered)
@@ -331,6 +542,13 @@ func c11ExecRT(r *sim.Run, sc *c11MuxSc) {
 				}
 				if lo > 0 && exp[lo][id] != exp[lo-1][id] {
 					interesting++
+				}
+				if recovered {
+					r.Probe("c11.rt.request_answered_after_recovery")
+					if from := down.From; lo > from && exp[lo][id] != exp[from][id] {
+						interesting++
+						r.Probe("c11.rt.request_after_recovery_whose_answer_changed_while_failed")
+					}
 				}
 				ok := false
 				for g := lo; g <= hi; g++ {
